@@ -321,6 +321,8 @@ class _Run(object):
                                  % (FMT_NAME.get(fmt, fmt), an, ad, pyarg), case, sarg, repr(pyarg))
                     values.append(None)
                     continue
+                if st == 11 and pyarg < 0:
+                    ctx.count('cubert:negative-argument:' + FMT_NAME.get(fmt, str(fmt)))
                 # ---- the linearisation applied to that argument
                 if st == 0 and mt == 0:
                     values.append(pyarg)
